@@ -154,4 +154,5 @@ def eval_case(case):
             "sample": {"kind": case["kind"], "m": m, "k": k, "boundary_readings": [z for _, z in zs[:3]]}}
 
 
-REQUIRED_OUTCOMES = (["keep", "discard"] + [f"discard:m{m}:k{k}" for m in MS for k in KS] + [f"keep:m{m}:k{k}" for m in MS for k in KS + [None]])
+REQUIRED_OUTCOMES = (["keep", "discard", "cpp-helper-ran", "cpp-filter-ran"] + [f"{o}:helper:m{m}:k{k}" for o in ("keep", "discard") for m in MS for k in KS]
+                     + [f"{o}:cppf:m{m}:k5.0" for o in ("keep", "discard") for m in MS] + [f"keep:cppf:m{m}:kNone" for m in MS] + [f"keep:cppf:m{m}:k0.0" for m in MS] + [f"discard:m{m}:k{k}" for m in MS for k in KS] + [f"keep:m{m}:k{k}" for m in MS for k in KS + [None]])
